@@ -94,6 +94,19 @@ func main() {
 			replace[dst] = src
 		}
 	}
+	// VERIF_REPLACE="repo/rel/file.go=/abs/replacement.go,..." : run a check against a variant of the
+	// repository (a seeded change, a candidate fix) without touching /repo
+	if env := os.Getenv("VERIF_REPLACE"); env != "" {
+		if c.Replace == nil {
+			c.Replace = map[string]string{}
+		}
+		for _, kv := range strings.Split(env, ",") {
+			p := strings.SplitN(kv, "=", 2)
+			if len(p) == 2 {
+				c.Replace[p[0]] = p[1]
+			}
+		}
+	}
 	for dst, src := range c.Replace {
 		if !filepath.IsAbs(src) {
 			src = filepath.Join(harness, src)
